@@ -118,6 +118,16 @@ impl EntityReactionAccessTracker
     }
 }
 
+#[cfg(feature = "verif")]
+impl EntityReactionAccessTracker
+{
+    /// Returns (number of prepared entries, currently reacting).
+    pub(crate) fn verif_state(&self) -> (usize, bool)
+    {
+        (self.prepared.len(), self.currently_reacting)
+    }
+}
+
 impl Default for EntityReactionAccessTracker
 {
     fn default() -> Self
